@@ -203,7 +203,7 @@ def gen_cases(rng, tier):
         n0 = 0 if i % 3 == 0 else rng.randint(1, 3)
         add({'kind': 'seqzt', 'x': [fs(v) for v in x], 'n0': n0, 'z': fs(rnd(rng, nz=True, big=9) + F(1, 3))})
     # J z-transform of expressions
-    for i in range(72 * k):
+    for i in range(54 * k):
         add(gen_zt(rng, i))
     # J' z-transform followed by the inverse transform
     for i in range(16 * k):
@@ -241,13 +241,13 @@ def gen_cases(rng, tier):
         kw = {'causal': True} if i % 2 else {}
         add({'kind': 'izt', 'H': '(%s)/(%s)' % (num, den), 'N': 9, 'b': [fs(v) for v in b], 'a': [fs(v) for v in a], 'kw': kw})
     # K' conjugate pole pairs / repeated poles of high multiplicity through H(n), impulse_response(), step_response()
-    for i in range(10 * k):
+    for i in range(8 * k):
         b, a, Hf = gen_multi_pole(rng, i)
         L = max(len(a), len(b)) - 1
         Hx = '(%s)/(%s)' % (poly_str(b + [F(0)] * (L + 1 - len(b))), poly_str(a + [F(0)] * (L + 1 - len(a))))
         kw = [{}, {'pairs': False}, {'causal': True}, {'causal': True, 'pairs': False}][(i // 6) % 4]
         add({'kind': 'izt', 'H': Hf if i % 2 == 0 else Hx, 'N': 14, 'b': [fs(v) for v in b], 'a': [fs(v) for v in a], 'kw': kw, 'cpu_limit': 20})
-    for i in range(5 * k):
+    for i in range(4 * k):
         b, a, Hf = gen_multi_pole(rng, i)
         add({'kind': 'impulse', 'b': [fs(v) for v in b], 'a': [fs(v) for v in a], 'N': 14, 'cpu_limit': 20})
     for i in range(4 * k):
@@ -513,46 +513,97 @@ def cyc_M(N):
     return N * 4 // math.gcd(N, 4) if N % 4 else N
 
 
+PHASES = [F(1, 2), F(1), F(-1, 2), F(1, 3), F(1, 4), F(-1, 4), F(2, 3), F(1, 6), F(3, 4)]
+
+
+def lcm(a, b):
+    return a * b // math.gcd(a, b)
+
+
 def gen_dft_expr(rng, i, inverse):
     """signal = sum of terms with a known exact value in Q(zeta) at every index"""
     var = 'k' if inverse else 'n'
+    mode = i % 8
     symbolic = (i % 3 != 0)
-    Ns = [2, 3, 4, 5, 8] if symbolic else [[1, 2, 4, 3, 6, 4][i % 6]]
-    if symbolic and i % 2:
-        Ns = [3, 4, 6]
+    if mode in (5, 6, 7):
+        # on-bin sinusoids / exponentials with phase, polynomial weights, products with a**n
+        symbolic = (i % 2 == 0)
+        Ns = rng.choice([[3, 4, 8], [4, 5, 6], [3, 6, 8]]) if symbolic else [rng.choice([4, 8, 6, 3, 5, 4, 8])]
+    else:
+        Ns = [2, 3, 4, 5, 8] if symbolic else [[1, 2, 4, 3, 6, 4][i % 6]]
+        if symbolic and i % 2:
+            Ns = [3, 4, 6]
     Nmin = min(Ns)
+
+    def bin_():
+        # a bin 0 < m < Nmin that is not the Nyquist bin of a numeric N (sympy rewrites cos(pi n + c) to (-1)**n cos(c))
+        cands = [m for m in range(1, Nmin) if symbolic or 2 * m != Ns[0]]
+        return rng.choice(cands) if cands else 0
     terms = []
-    for t in range(1 if i % 4 else 2):
-        cls = rng.choice(['imp', 'const', 'geo', 'cexp', 'cos'] + ([] if inverse else ['ramp', 'ngeo', 'win']))
-        c = rnd(rng, nz=True)
-        if cls == 'imp':
-            terms.append(('imp', c, rng.randint(0, Nmin - 1)))
-        elif cls == 'const':
-            terms.append(('const', c))
-        elif cls == 'geo':
-            terms.append(('geo', c, rng.choice([F(1, 2), F(-1, 2), F(1, 3), F(2), F(-2, 3)])))
-        elif cls == 'cexp':
-            terms.append(('cexp', c, rng.randint(0, Nmin - 1) if Nmin > 1 else 0))
-        elif cls == 'cos':
-            terms.append(('cos', c, rng.randint(0, Nmin - 1) if Nmin > 1 else 0))
-        elif cls == 'ramp':
-            terms.append(('ramp', c, rng.randint(1, 2)))
-        elif cls == 'ngeo':
-            terms.append(('ngeo', c, rng.choice([F(1, 2), F(-1, 3), F(2)])))
-        elif cls == 'win':
-            terms.append(('win', c, rng.randint(0, Nmin - 1)))
-    Nname = 'N' if symbolic else None
+    if mode in (5, 6, 7):
+        onlyq = (not symbolic and Ns[0] == 4 and rng.random() < 0.6)      # quarter-turn phases: checked inside Coq (Q(i))
+        for t in range(1 if i % 4 else 2):
+            c = rnd(rng, nz=True)
+            ph = rng.choice([F(1, 2), F(1), F(-1, 2)] if onlyq else PHASES)
+            if rng.random() < 0.15:
+                ph = F(0)
+            cls = rng.choice(['cosp', 'sinp', 'cosp', 'sinp', 'cexpp', 'ncos', 'nsin', 'gcos', 'gsin'] if not inverse else ['cosp', 'sinp', 'cexpp', 'gcos'])
+            m = bin_()
+            if cls in ('cosp', 'sinp', 'cexpp'):
+                terms.append((cls, c, m, ph))
+            elif cls in ('ncos', 'nsin'):
+                terms.append((cls, c, m, ph, rng.randint(1, 2)))
+            else:
+                terms.append((cls, c, m, ph, rng.choice([F(1, 2), F(-1, 2), F(2), F(1, 3)])))
+    else:
+        for t in range(1 if i % 4 else 2):
+            cls = rng.choice(['imp', 'const', 'geo', 'cexp', 'cos'] + ([] if inverse else ['ramp', 'ngeo', 'win']))
+            c = rnd(rng, nz=True)
+            if cls == 'imp':
+                terms.append(('imp', c, rng.randint(0, Nmin - 1)))
+            elif cls == 'const':
+                terms.append(('const', c))
+            elif cls == 'geo':
+                terms.append(('geo', c, rng.choice([F(1, 2), F(-1, 2), F(1, 3), F(2), F(-2, 3)])))
+            elif cls == 'cexp':
+                terms.append(('cexp', c, rng.randint(0, Nmin - 1) if Nmin > 1 else 0))
+            elif cls == 'cos':
+                terms.append(('cos', c, rng.randint(0, Nmin - 1) if Nmin > 1 else 0))
+            elif cls == 'ramp':
+                terms.append(('ramp', c, rng.randint(1, 2)))
+            elif cls == 'ngeo':
+                terms.append(('ngeo', c, rng.choice([F(1, 2), F(-1, 3), F(2)])))
+            elif cls == 'win':
+                terms.append(('win', c, rng.randint(0, Nmin - 1)))
+    if mode == 4 and not inverse and i % 16 == 4:
+        # the alternating sequence (-1)**n: a geometric sequence on the unit circle
+        symbolic = False
+        Ns = [rng.choice([2, 4, 6, 8, 3, 5])]
+        terms = [('alt', rnd(rng, nz=True))]
+    return mk_dft_case(terms, Ns, symbolic, inverse)
+
+
+def mk_dft_case(terms, Ns, symbolic, inverse):
+    var = 'k' if inverse else 'n'
     s = []
+    NN = 'N' if symbolic else '%d' % Ns[0]
+    sg = '-' if inverse else ''
+
+    def ang(m, ph):
+        a = '2*pi*%d*%s/%s' % (m, var, NN)
+        if ph != 0:
+            a += ' + (%s)*pi' % fs(ph)
+        return a
     for t in terms:
         c = '(%s)' % fs(t[1])
-        NN = 'N' if symbolic else '%d' % Ns[0]
-        sg = '-' if inverse else ''
         if t[0] == 'imp':
             s.append('%s*delta(%s - %d)' % (c, var, t[2]))
         elif t[0] == 'const':
             s.append(c)
         elif t[0] == 'geo':
             s.append('%s*(%s)**%s' % (c, fs(t[2]), var))
+        elif t[0] == 'alt':
+            s.append('%s*(-1)**%s' % (c, var))
         elif t[0] == 'cexp':
             s.append('%s*exp(%sj*2*pi*%d*%s/%s)' % (c, sg, t[2], var, NN))
         elif t[0] == 'cos':
@@ -563,7 +614,19 @@ def gen_dft_expr(rng, i, inverse):
             s.append('%s*%s*(%s)**%s' % (c, var, fs(t[2]), var))
         elif t[0] == 'win':
             s.append('%s*u(%s - %d)' % (c, var, t[2]))
-    case = {'kind': 'expridft' if inverse else 'exprdft', 'expr': ' + '.join(s), 'Ns': Ns, 'Ms': dict((str(N), cyc_M(N)) for N in Ns),
+        elif t[0] == 'cosp':
+            s.append('%s*cos(%s)' % (c, ang(t[2], t[3])))
+        elif t[0] == 'sinp':
+            s.append('%s*sin(%s)' % (c, ang(t[2], t[3])))
+        elif t[0] == 'cexpp':
+            s.append('%s*exp(j*(%s))' % (c, ang(t[2], t[3])))
+        elif t[0] in ('ncos', 'nsin'):
+            s.append('%s*%s**%d*%s(%s)' % (c, var, t[4], t[0][1:], ang(t[2], t[3])))
+        elif t[0] in ('gcos', 'gsin'):
+            s.append('%s*(%s)**%s*%s(%s)' % (c, fs(t[4]), var, t[0][1:], ang(t[2], t[3])))
+    phased = any(t[0] in ('cosp', 'sinp', 'cexpp', 'ncos', 'nsin', 'gcos', 'gsin') and F(t[3]) * 2 % 1 != 0 for t in terms)
+    Ms = dict((str(N), lcm(cyc_M(N), 24) if phased else cyc_M(N)) for N in Ns)
+    case = {'kind': 'expridft' if inverse else 'exprdft', 'expr': ' + '.join(s), 'Ns': Ns, 'Ms': Ms,
             'sig': [[t[0], fs(t[1])] + [fs(v) if isinstance(v, Fraction) else v for v in t[2:]] for t in terms], 'inverse': inverse}
     if not symbolic:
         case['N'] = Ns[0]
@@ -621,6 +684,25 @@ def sig_value(C, sig, idx, N, inverse):
             v = C.const(c * idx * F(t[2]) ** idx)
         elif kind == 'win':
             v = C.const(c if idx >= t[2] else 0)
+        elif kind == 'alt':
+            v = C.const(c * (-1) ** idx)
+        elif kind in ('cosp', 'sinp', 'cexpp', 'ncos', 'nsin', 'gcos', 'gsin'):
+            e2 = 2 * t[2] * idx * (M // N) + F(t[3]) * M          # twice the exponent of zeta_M
+            if e2 % 2:
+                raise ValueError('phase not representable in Q(zeta_%d)' % M)
+            e = int(e2 // 2)
+            if kind == 'cexpp':
+                v = C.zeta(e)
+            elif kind[-3:] == 'cos' or kind == 'cosp':
+                v = (C.zeta(e) + C.zeta(-e)) * C.const(F(1, 2))
+            else:
+                v = C.mul(C.zeta(e) - C.zeta(-e), C.zeta(3 * M // 4)) * C.const(F(1, 2))     # 1/(2j) = -j/2
+            w_ = c
+            if kind in ('ncos', 'nsin'):
+                w_ = c * F(idx) ** t[4]
+            elif kind in ('gcos', 'gsin'):
+                w_ = c * F(t[4]) ** idx
+            v = v * C.const(w_)
         tot = tot + v
     return tot.rem(C.Phi)
 
@@ -688,6 +770,36 @@ def gen_tables(zt, dt, it=None):
         'intros W N n0 k c H. unfold dft_delta_q, dft. rewrite (sumn_single K N _ n0 H). '
         '- destruct (Nat.eq_dec n0 n0); [|congruence]. rewrite pw_mul. reflexivity. '
         '- intros i Hi Hne. destruct (Nat.eq_dec i n0); [contradiction|ring].')
+    # sinusoid branches of termXq: the copy carrying exp(+j b n) must be shifted to bin +k0, the other to bin N - k0
+    out.append('Definition tone (W : K) (s : bool) (k0 n : nat) : K := if s then pw (1 / W) (k0 * n) else pw W (k0 * n).')
+    out.append('Definition bin (N k0 : nat) (t : bool) : nat := if t then k0 else (N - k0)%nat.\n')
+    for nm in ('cos', 'sin'):
+        thm('gen_dft_%s_shift' % nm,
+            'forall (W : K) (N : nat), (0 < N)%%nat -> pw W N = 1 -> (forall k, (0 < k < N)%%nat -> pw W k <> 1) -> '
+            'forall (c E Ei J : K) (k0 k : nat), (0 < k0 < N)%%nat -> (k < N)%%nat -> '
+            'dft W N (fun n => dft_%(n)s_c1 c E Ei J * tone W dft_%(n)s_s1 k0 n + dft_%(n)s_c2 c E Ei J * tone W dft_%(n)s_s2 k0 n) k = '
+            'dft_%(n)s_c1 c E Ei J * (if Nat.eq_dec k (bin N k0 dft_%(n)s_t1) then ofnat N else 0) + '
+            'dft_%(n)s_c2 c E Ei J * (if Nat.eq_dec k (bin N k0 dft_%(n)s_t2) then ofnat N else 0)' % {'n': nm},
+            'intros W N HN WN Wp c E Ei J k0 k H0 Hk. '
+            'cbv beta iota delta [tone bin dft_%(n)s_s1 dft_%(n)s_s2 dft_%(n)s_t1 dft_%(n)s_t2]. '
+            'apply (dft_two_tone K W N HN WN Wp); assumption.' % {'n': nm})
+    thm('gen_dft_cos_signal',
+        'forall (W c E Ei J : K) (k0 n : nat), '
+        'dft_cos_c1 c E Ei J * tone W dft_cos_s1 k0 n + dft_cos_c2 c E Ei J * tone W dft_cos_s2 k0 n = '
+        'c * ((E * pw (1 / W) (k0 * n) + Ei * pw W (k0 * n)) / (1 + 1))',
+        'intros. cbv beta iota delta [tone dft_cos_s1 dft_cos_s2 dft_cos_c1 dft_cos_c2]. field. exact (fchar0 K 2).')
+    thm('gen_dft_sin_signal',
+        'forall (W c E Ei J : K) (k0 n : nat), J <> 0 -> '
+        'dft_sin_c1 c E Ei J * tone W dft_sin_s1 k0 n + dft_sin_c2 c E Ei J * tone W dft_sin_s2 k0 n = '
+        'c * ((E * pw (1 / W) (k0 * n) - Ei * pw W (k0 * n)) / ((1 + 1) * J))',
+        'intros W c E Ei J k0 n HJ. cbv beta iota delta [tone dft_sin_s1 dft_sin_s2 dft_sin_c1 dft_sin_c2]. field. '
+        'split; [exact HJ | exact (fchar0 K 2)].')
+    thm('gen_dft_cexp_shift',
+        'forall (W : K) (N : nat), (0 < N)%nat -> pw W N = 1 -> (forall k, (0 < k < N)%nat -> pw W k <> 1) -> '
+        'forall (c : K) (k0 k : nat), (k0 < N)%nat -> (k < N)%nat -> '
+        'dft W N (fun n => c * tone W dft_cexp_s1 k0 n) k = c * (if Nat.eq_dec k (bin N k0 dft_cexp_t1) then ofnat N else 0)',
+        'intros W N HN WN Wp c k0 k H0 Hk. cbv beta iota delta [tone bin dft_cexp_s1 dft_cexp_t1]. '
+        'rewrite <- (dft_cexp K W N HN WN Wp k0 k H0 Hk). unfold dft. rewrite <- sumn_scal. apply sumn_ext. intros; ring.')
     # InverseZTransformer.ratfun: with bino = n (n-1) ... (n-i+2) (the loop `bino = 1; ...; bino *= n - i + 1`),
     # the prefactor times p^n is the binomial sequence C(n, i-1) p^(n-i+1) of zt_binom
     thm('gen_izt_pair_prefac',
@@ -847,7 +959,7 @@ def coq_case(c, r, extra):
             return None
         parts = []
         for N in c['Ns']:
-            if N not in (1, 2, 4):
+            if N not in (1, 2, 4) or c['Ms'][str(N)] != 4:
                 continue
             obs = r['vals'][str(N)]
             if any(v is None for v in obs):
@@ -1337,6 +1449,13 @@ def run(tier='quick', replay=None):
         import time as _t
         _t0 = _t.time()
         results = core.run_impl('impl_dt.py', cases, hashseeds=[0])
+        # a worker whose output could not be read loses its whole chunk: run those cases again (smaller chunks)
+        lost = [i for i, r in enumerate(results) if 'error' in r and r['error'].startswith('worker crashed')]
+        if lost:
+            again = core.run_impl('impl_dt.py', [cases[i] for i in lost], hashseeds=[0])
+            for i, r in zip(lost, again):
+                results[i] = r
+            res.notes.append('%d cases re-run after a worker crash' % len(lost))
         _t1 = _t.time()
         th.join()
         _t2 = _t.time()
@@ -1484,7 +1603,7 @@ def run(tier='quick', replay=None):
             related = set()
             if name.startswith('gen_zt') or (name == 'translate' and 'ZTransformer' in msg + f) or 'ztransform' in msg:
                 related = {'zt'}
-            if name.startswith('gen_dft') or 'termXq' in msg or 'dft.py' in msg:
+            if name.startswith('gen_dft') or 'termXq' in msg or 'dft.py' in msg or 'branch' in msg:
                 related |= {'exprdft', 'expridft'}
             if name.startswith('gen_izt') or 'ratfun' in msg or 'pole' in msg:
                 related |= {'izt', 'impulse', 'step', 'ztrt'}
@@ -1499,6 +1618,10 @@ def run(tier='quick', replay=None):
         nk = {}
         for c in cases:
             nk[c['kind']] = nk.get(c['kind'], 0) + 1
+        crashed = [(c, r) for lst in errs.values() for c, r in lst if r['error'].startswith('worker crashed')]
+        if crashed:
+            violations.append({'key': 'harness:worker-crashed', 'what': 'tools/impl_dt.py died twice on %d cases (no result from the real code)' % len(crashed),
+                               'case': crashed[0][0], 'lcapy': crashed[0][1], 'found_input': False})
         for kind_, lst in errs.items():
             if not replay and len(lst) >= max(3, nk[kind_] // 4):
                 violations.append({'key': 'exceptions:' + kind_, 'what': 'the real code raised on %d of %d generated %s cases: %s' % (
